@@ -30,13 +30,14 @@ def run_case(rs, ctx):
     labels = ["int", "str", "float"][(ctx.index // 48) % 3]
     n_jobs = 3 if (ctx.index // 144) % 2 else 1
     backend = "threading" if n_jobs > 1 and (ctx.tier == "quick" or rs.integers(16)) else None  # None -> loky processes (slow)
-    cfg = gen.gen_cfg(rs, l, p, labels=labels, n_arms=int(rs.integers(1, 5)), n_jobs=n_jobs, backend=backend)
+    cfg = gen.gen_cfg(rs, l, p, labels=labels, n_arms=int(gen.pick(rs, [1, 2, 3, 4, 2, 3, 4, 17])), n_jobs=n_jobs, backend=backend)
     cfg["min_arms"] = 1  # a bandit may shrink to (or start with) a single arm
     nf = int(gen.pick(rs, [1, 2, 3]))
     sh = gen.Shadow(cfg, nf)
     ops = gen.gen_ops(rs, cfg, sh, int(rs.integers(0, 4)), ["add_arm", "remove_arm"]) + \
         gen.gen_ops(rs, cfg, sh, 1, ["fit"], train_rows=(4, 16)) + \
-        gen.gen_ops(rs, cfg, sh, int(rs.integers(8, 21)), KINDS, train_rows=(1, 8))
+        gen.gen_ops(rs, cfg, sh, int(rs.integers(8, 21)), KINDS, train_rows=(1, 8),
+                    sizes=(1, 2, 3, 5, 8) if rs.integers(4) else (1, 2, 17, 33, 70))
     m = gen.build(cfg)
     arms = list(cfg["arms"])
     added_then_q = removed_then_q = False
